@@ -257,6 +257,7 @@ func hijacked(c *fw.Ctx, e *env, r *fw.Rand) {
 		target := gen.UCid(r.Intn(8))
 		sub := r.Pick("", "", "/a", "/a/b")
 		argValid := true
+		noArg := false
 		arg := "/ipfs/" + target.String() + sub
 		switch r.Intn(8) {
 		case 0:
@@ -265,6 +266,12 @@ func hijacked(c *fw.Ctx, e *env, r *fw.Rand) {
 		case 1:
 			arg = r.Pick("notapath", "/ipfs/", "/ipfs/zzzz", "Qm", "/ipld/")
 			argValid = false
+		case 2:
+			// no argument at all: still the proxy's request to answer (with an error)
+			if route == "pin/add" || route == "pin/rm" {
+				noArg = true
+				argValid = false
+			}
 		}
 		q := url.Values{}
 		p := "/api/v0/" + route
@@ -283,7 +290,7 @@ func hijacked(c *fw.Ctx, e *env, r *fw.Rand) {
 				style = "slash"
 				p += "/" + url.PathEscape(strings.TrimPrefix(arg, "/ipfs/"))
 				arg = strings.TrimPrefix(arg, "/ipfs/")
-			} else {
+			} else if !noArg {
 				q.Set("arg", arg)
 			}
 			if route == "pin/add" {
